@@ -461,6 +461,22 @@ example : (∀ r ∈ [[Cell.str [48, 48, 55], .num [49, 46, 53], .str [120]]],
     simp at hc; subst hc
     simp [Csv.localize, cellText]
 
+/-- **csv_table_roundtrip_decimal_comma.**  Whole tables written after `setSeparator(';')` **and** `setDecimal(',')`
+    (numbers go into the file as `1,5`) and read without `readAs`: for two or more identifier column names and every
+    table of cells as in `csv_semicolon_row`, a fresh `TabularDataFile` recognises `;`, assumes the decimal comma,
+    recognises `1,5` as a number (`myisnumber` with `,`), turns the comma back into a point and returns the columns
+    and the rows cell for cell, numbers as `myatof` of the text the writer was given. -/
+theorem csv_table_roundtrip_decimal_comma (cols : List Bytes) (hcols : ∀ n ∈ cols, ColOK n) (h2 : 2 ≤ cols.length)
+    (rows : List (List Cell)) (hrows : ∀ r ∈ rows, r.length = cols.length ∧ ∀ c ∈ r, CellWFsemi c) :
+    Csv.readTable (Csv.writeItemsG 59 44 cols (rows.flatten.map .cell)) =
+      { columns := cols, rows := rows.map (·.map expected) } := by
+  rw [← AslProofs.Csv.readTableT_nil]
+  exact AslProofs.Csv.table_roundtrip_comma cols hcols h2 rows hrows
+
+/-- `x ; 1.5` with the decimal comma is the file line `x;1,5` and comes back as the string and the number 1.5 -/
+example : (Csv.readTable (Csv.writeItemsG 59 44 [[97], [98]] [.cell (.str [120]), .cell (.num [49, 46, 53])])).rows
+    = [[.str [120], .num ⟨false, 15, -1⟩]] := by decide
+
 /-- **csv_number_exact_Q.**  Every number text `[-]digits[.digits][(e|E)[+|-]digits]` with at most 18 mantissa digits
     and at most 9 exponent digits (in particular every `%.15g` output) is recognised as a number by `myisnumber`;
     on it the code's `long long y1` stays below 2^63 and its `int` exponent within ±2^31, so the model's unbounded
